@@ -182,6 +182,12 @@ Theorem C13_i_guard_of_a_poisoned_lock_works :
 Proof. exact PT.guard_of_poisoned_lock_works. Qed.
 Print Assumptions C13_i_guard_of_a_poisoned_lock_works.
 
+(* is_poisoned(), get_mut(), into_inner() report exactly the flag. *)
+Theorem C13_i_observers_report_the_flag :
+  forall s l, P.is_poisoned s l = P.failed (P.L s l) /\ P.get_mut_err s l = P.failed (P.L s l) /\ P.into_inner_err s l = P.failed (P.L s l).
+Proof. exact PT.observers_report_the_flag. Qed.
+Print Assumptions C13_i_observers_report_the_flag.
+
 (* Exclusion does not depend on the flag: one owner of write access, no reader beside it. *)
 Theorem C13_i_write_guard_exclusive_also_when_poisoned :
   forall isco ismutex s t t' g g', P.Reach isco ismutex s ->
